@@ -50,8 +50,9 @@ def present(G, rng, payload="u32"):
             rhs = G["rules"][i]["rhs"]
             style = "empty" if not rhs else rng.choice(["named", "tuple"])
             mask = [rng.random() < 0.7 for _ in rhs]
+            # field names: ordinary, starting with an underscore, or without any letter - all legal; only a bare `_` skips
             pres["rules"][i] = dict(struct=as_struct, vname="V%d" % vi, style=style, mask=mask,
-                                    fnames=["f%d" % j for j in range(len(rhs))])
+                                    fnames=[rng.choice(["f%d", "f%d", "_f%d", "_%d", "__%d"]) % j for j in range(len(rhs))])
     return pres
 
 
